@@ -6204,7 +6204,7 @@ class CapabilityInformation(primitives.Struct):
                     local_buffer,
                     kmip_version=kmip_version
                 )
-                self._batch_continue_capability = batch_undo_capability
+                self._batch_undo_capability = batch_undo_capability
 
             if self.is_tag_next(
                 enums.Tags.BATCH_CONTINUE_CAPABILITY,
